@@ -149,11 +149,11 @@ int main(int argc, char** argv) {
     if (m == "it_step") { FS::iterator it = (idx == E) ? o->end() : FS::iterator(o, idx);
       switch (op) { case 0: ++it; break; case 1: it++; break; case 2: --it; break; case 3: it--; break; case 4: it += val; break; default: it -= val; }
       got = it.mIndex; std::string t = old; std::string::iterator si = (idx == E) ? t.end() : t.begin() + idx; long d = (op <= 1) ? 1 : (op <= 3) ? -1 : (op == 4) ? (long)val : -(long)val;
-      long pos = (si - t.begin()) + d; if (pos < 0 || pos > (long)n) { printf("NOT-REPRODUCED: step leaves [begin, end] (undefined for std::string too)\n"); return 0; } want = (pos == (long)n) ? E : (size_t)pos; }
+      long pos = (si - t.begin()) + d; if (got != E && got >= n) { printf("REPRODUCED: iterator index %zu is neither end nor a valid position (length %zu)\n", got, n); return 1; } if (pos < 0 || pos > (long)n) { printf("NOT-REPRODUCED: step leaves [begin, end] (undefined for std::string too)\n"); return 0; } want = (pos == (long)n) ? E : (size_t)pos; }
     else { FS::reverse_iterator it = (idx == E) ? o->rend() : FS::reverse_iterator(o, idx);
       switch (op) { case 0: ++it; break; case 1: it++; break; case 2: --it; break; case 3: it--; break; case 4: it += val; break; default: it -= val; }
       got = it.mIndex; long rp = (idx == E) ? (long)n : (long)(n - 1 - idx); long d = (op <= 1) ? 1 : (op <= 3) ? -1 : (op == 4) ? (long)val : -(long)val; long pos = rp + d;
-      if (pos < 0 || pos > (long)n) { printf("NOT-REPRODUCED: step leaves [rbegin, rend] (undefined for std::string too)\n"); return 0; } want = (pos == (long)n) ? E : (size_t)(n - 1 - pos); }
+      if (got != E && got >= n) { printf("REPRODUCED: iterator index %zu is neither end nor a valid position (length %zu)\n", got, n); return 1; } if (pos < 0 || pos > (long)n) { printf("NOT-REPRODUCED: step leaves [rbegin, rend] (undefined for std::string too)\n"); return 0; } want = (pos == (long)n) ? E : (size_t)(n - 1 - pos); }
     if (got != E && got >= n) { printf("REPRODUCED: iterator index %zu is neither end nor a valid position (length %zu)\n", got, n); return 1; }
     if (content && got != want) { printf("REPRODUCED: %s op %zu from index %zd gives index %zd, std::string iterator gives %zd\n", m.c_str(), op, (ssize_t)idx, (ssize_t)got, (ssize_t)want); return 1; } }
   else if (m == "it_deref" || m == "rit_deref") { if (idx < old.size()) { char c = (m == "it_deref") ? *FS::iterator(o, idx) : *FS::reverse_iterator(o, idx); if (c != old[idx]) return bad("iterator dereference", std::string(1, old[idx]), std::string(1, c)); } }
